@@ -392,7 +392,9 @@ class Gen:
             body = " ".join(toks)
         if r.random() < 0.3 and body:
             nf = r.randint(1, 2)
-            formals = [("p%d" % i, None if r.random() < 0.6 else r.choice(["7", "d"])) for i in range(nf)]
+            # (reserved words are legal names of formal arguments: they are lexed under the directive keyword set)
+            pool = ["p0", "p1"] if r.random() < 0.7 else r.sample(["type", "input", "bit", "logic", "wire", "p0"], 2)
+            formals = [(pool[i], None if r.random() < 0.6 else r.choice(["7", "d"])) for i in range(nf)]
             body = body + " " + " + ".join(f for f, _ in formals)
             self.funs[name] = formals
             if name in self.defined:
